@@ -150,4 +150,26 @@ Definition convert_pest_error_fixed (bs : list N) (index : N) : position :=
 Definition err_render_fixed (bs : list N) (index : N) : list N :=
   render_position (convert_pest_error_fixed bs index).
 
+(* X: convert_pest_error at EVERY character-boundary offset of the text (the driver builds a pest error at each
+   offset with pest::error::Error::new_from_pos and calls the public convert_pest_error);
+   entries "p index line column a b" separated by commas *)
+Fixpoint sweep_from (conv : list N -> N -> position) (bs suffix : list N) (p : N) : list (list N) :=
+  let here := match suffix with
+              | [] => true
+              | b :: _ => negb (is_cont b)
+              end in
+  (if here then [hexN p ++ 32 :: render_position (conv bs p)] else [])
+  ++ match suffix with
+     | [] => []
+     | _ :: r => sweep_from conv bs r (p + 1)
+     end.
+Fixpoint join_comma (l : list (list N)) : list N :=
+  match l with
+  | [] => []
+  | [x] => x
+  | x :: r => x ++ 44 :: join_comma r
+  end.
+Definition err_sweep_render (bs : list N) : list N := join_comma (sweep_from convert_pest_error bs bs 0).
+Definition err_sweep_fixed_render (bs : list N) : list N := join_comma (sweep_from convert_pest_error_fixed bs bs 0).
+
 Definition all_ascii (bs : list N) : bool := forallb (fun b => b <? 128) bs.
